@@ -240,6 +240,36 @@ func ferun(c *Ctx) {
 		if len(names) == 0 {
 			names = append(names, nameTarget{word: "nothing"})
 		}
+		// the text of -l and of -h <word>, through the compiled binary and through mage (its binary name is "mage")
+		{
+			dt, sy := docMaps(p)
+			for _, way := range []string{"static", "mage"} {
+				bin, exe := "static.bin", static
+				if way == "mage" {
+					bin, exe = "mage", mageBin
+				}
+				var hw []string
+				for k := 0; k < 4; k++ {
+					w := caseVariant(r, names[r.Intn(len(names))].word)
+					if r.Chance(1, 8) {
+						w += "x"
+					}
+					hw = append(hw, w)
+				}
+				l := runCmd(dir, env, exe, "-l")
+				help := [][]interface{}{}
+				for _, w := range hw {
+					h := runCmd(dir, env, exe, "-h", w)
+					help = append(help, []interface{}{h.stdout, h.status})
+				}
+				impl := J{"list": l.stdout, "help": help}
+				if l.status != 0 {
+					impl["listStatus"] = l.status
+					impl["stderr"] = l.stderr
+				}
+				c.Emit(J{"op": "fe.text", "project": p, "fields": fields, "docText": dt, "syn": sy, "bin": bin, "helpWords": hw}, impl, "text", "way="+way)
+			}
+		}
 		arity := map[string][]string{}
 		for _, n := range names {
 			if n.types != nil {
